@@ -1980,9 +1980,12 @@ fn main() {
     samples.extend(stream_samples);
     samples.push(json!({"tree": show_t(&trees[trees.len() / 2]), "encoded_by": ENCODERS}));
 
+    // the reporter counts calls; the exact number of cases per signature is kept in the coverage
+    let mut case_counts: BTreeMap<String, u64> = BTreeMap::new();
     for acc in [sweep, famacc, nestacc, stracc, rtacc] {
         for (sig, (detail, replay, count)) in acc.findings {
-            for _ in 0..count {
+            *case_counts.entry(sig.clone()).or_insert(0) += count;
+            for _ in 0..count.min(1000) {
                 rep.violation(sig.clone(), detail.clone(), replay.clone());
             }
         }
@@ -2001,6 +2004,7 @@ fn main() {
         "nesting": Value::Object(nest_json),
         "valid_streams": stream_json,
         "round_trips": rt_json,
+        "cases_per_violation_signature": case_counts,
         "wall_s_per_part": part_wall.iter().map(|(n, t)| json!({"part": n, "wall_s": (t * 10.0).round() / 10.0})).collect::<Vec<_>>(),
     });
     let _ = mark;
